@@ -252,6 +252,45 @@ def run(ctx, proof):
         if asymmetric(n, g):
             ctx.nontrivial.add(("relabel", n, tuple(pi), tuple(float(x) for x in g)))
 
+    # (i) the same game OBJECT evaluated again after its values were changed in place, (ii) games of very small / very large
+    # magnitude (the statement is linear, so all comparisons are relative to the game's magnitude)
+    from incomplete_cooperative.coalitions import Coalition as _Coal
+    from incomplete_cooperative.shapley import compute_shapley_value, compute_shapley_value_for_player
+    for k_ in range(24 if ctx.quick else 240):
+        n = rng.randint(2, 5)
+        unit = [Fraction(1), Fraction(1, 10 ** 9), Fraction(1, 2 ** 40), Fraction(10 ** 6), Fraction(1, 10 ** 12)][k_ % 5]
+        v1 = [Fraction(0)] + [unit * rng.randint(-9, 9) for _ in range(2 ** n - 1)]
+        g = impl_game(n, v1)
+        first_all = [float(x) for x in compute_shapley_value(g)]
+        first_single = [float(compute_shapley_value_for_player(i, g)) for i in range(n)]
+        v2 = list(v1)
+        mode = rng.choice(["set_value", "set_values", "none"])
+        if mode == "set_value":
+            c_ = rng.randrange(1, 2 ** n)
+            v2[c_] = v2[c_] + unit * rng.choice([-5, 3, 7])
+            g.set_value(float(v2[c_]), _Coal(c_))
+        elif mode == "set_values":
+            v2 = [Fraction(0)] + [unit * rng.randint(-9, 9) for _ in range(2 ** n - 1)]
+            g.set_values(np.array([float(x) for x in v2], dtype=np.float64))
+        second_all = [float(x) for x in compute_shapley_value(g)]
+        second_single = [float(compute_shapley_value_for_player(i, g)) for i in range(n)]
+        ctx.evaluations += 1
+        ctx.count("re_evaluated_object", mode)
+        ctx.count("value_unit", str(float(unit)))
+        mag = max([abs(float(x)) for x in v1 + v2] + [float(unit)])
+        for label, vv, outs_ in (("first evaluation", v1, (first_all, first_single)), (f"second evaluation after {mode}", v2, (second_all, second_single))):
+            want = perm_average(n, vv)
+            bad = [(ep, i, o[i], float(want[i])) for ep, o in zip(("all-players", "single-player"), outs_) for i in range(n)
+                   if abs(o[i] - float(want[i])) > 1e-9 * mag]
+            if bad:
+                ctx.violation(f"{label} of one game object (values of magnitude {mag:g}): Shapley value differs from the ordering average "
+                              f"(entry point, player, got, expected): {bad[:3]}",
+                              {"n": n, "values_first": [str(x) for x in v1], "change": mode, "values_second": [str(x) for x in v2],
+                               "which": label, "failures": str(bad[:6])})
+                break
+        else:
+            ctx.nontrivial.add(("reeval", n, mode, tuple(map(str, v2))))
+
     # large player counts ("numerically beyond"): carrier games v(S) = w(S & C) with |C| <= 5, C containing high-index
     # players. Their ordering average is known exactly without enumerating n! orders: players outside C get 0 and a player
     # of C gets the ordering average of w over the |C|! induced orders.
